@@ -768,6 +768,13 @@ func init() {
 					for _, combo := range combos {
 						jobs = append(jobs, J(sessPkg, "H_C05_sched", role, combo, 0))
 					}
+					if role == 0 {
+						for mode := 0; mode <= 1; mode++ {
+							for _, kj := range [][2]int{{0, 0}, {2, 0}, {0, 3}, {3, 1}, {7, 2}} {
+								jobs = append(jobs, J(sessPkg, "H_C05_history", mode, kj[0], kj[1]))
+							}
+						}
+					}
 					// small outbound buffers with a concurrent writer
 					for buf := 1; buf <= 2; buf++ {
 						for second := 0; second <= 1; second++ {
@@ -784,7 +791,7 @@ func init() {
 				}
 				return jobs
 			},
-			Explanation: "(a) Inductive step: the outgoing counter is set to a symbolic n after a real logon exchange (peer identifiers symbolic, ResetSeqNumFlag symbolic); one message is produced by each producer kind (application Send x3 types, reply to an inbound TestRequest, Reject of a damaged message, heartbeat-timer expiry, silence-timer expiry); asserted: exactly one message transmitted, MsgSeqNum = n+1, Sender/TargetCompID = the session's (mirrored on the acceptor), SendingTime in FIX layout and read between entry and exit of the call, counter = n+1, a later session on the same store continues with n+2; the logon exchange itself uses number 1. (b) Schedule exploration: two (thorough: three) concurrent producers - application Send with another Send, with the reply to an inbound TestRequest, with a heartbeat-timer expiry, with a Reject - every interleaving at synchronisation operations with at most 2 preemptions; asserted: the outbound queue holds consecutive ascending numbers. (c) Outbound buffer of 1 or 2 with a concurrent writer goroutine taking messages from the queue while one goroutine sends three messages (and optionally a second goroutine one more): coarse schedule exploration (switches at channel/select/cancel/go operations, preemption bound 0..2, two pick rotations); asserted: the writer receives 1,2,3,... in order.",
+			Explanation: "(a) Inductive step: the outgoing counter is set to a symbolic n after a real logon exchange (peer identifiers symbolic, ResetSeqNumFlag symbolic); one message is produced by each producer kind (application Send x3 types, reply to an inbound TestRequest, Reject of a damaged message, heartbeat-timer expiry, silence-timer expiry); asserted: exactly one message transmitted, MsgSeqNum = n+1, Sender/TargetCompID = the session's (mirrored on the acceptor), SendingTime in FIX layout and read between entry and exit of the call, counter = n+1, a later session on the same store continues with n+2; the logon exchange itself uses number 1. (b) Schedule exploration: two (thorough: three) concurrent producers - application Send with another Send, with the reply to an inbound TestRequest, with a heartbeat-timer expiry, with a Reject - every interleaving at synchronisation operations with at most 2 preemptions; asserted: the outbound queue holds consecutive ascending numbers. (c) Outbound buffer of 1 or 2 with a concurrent writer goroutine taking messages from the queue while one goroutine sends three messages (and optionally a second goroutine one more): coarse schedule exploration (switches at channel/select/cancel/go operations, preemption bound 0..2, two pick rotations); asserted: the writer receives 1,2,3,... in order. (d) Multi-step histories on one counter store with unequal traffic in the two directions: one message object sent three times while queued, k sends, j inbound messages, then a later session on the same store or a logout and second logon, the peer's Logon continuing its own numbering.",
 			Rule:        "case = (role, producer kind, counter digit class, reset flag) x path for (a); (role, producer combination) x schedule for (b)",
 			Bounds:      map[string]string{"quick": "n in 1..8 / 10..98; <=2 concurrent producers, one message each, preemption bound 2 (~600-3600 schedules per combination); buffer 1..2, 3+1 messages, preemption bound <=2", "thorough": "plus a three-producer combination with preemption bound 1"},
 			Assumptions: conc,
